@@ -175,7 +175,7 @@ theorem in_required_20 (ops : List Op) (r : Nat) (hshape : shapeOf ops ∈ symbo
     (hlo : 253952 ≤ r) (hhi : r < RangeDec.U32) :
     (runR r ops).2 ≤ Gen.C04.LZMA_IN_REQUIRED ∧ 253952 ≤ (runR r ops).1 ∧ (runR r ops).1 < RangeDec.U32 := by
   have hs : shapeOk (shapeOf ops) = true := List.all_eq_true.mp symbol_shapes_ok _ hshape
-  exact symbol_bound_of_shape ops r hs hok hlo hhi
+  exact symbol_bound_of_shape ops r hs hok.to0 hlo hhi
 
 /-- Hence the fast loop never reads past `in_size`: it runs only while `rc_is_fast_allowed()`, i.e. while more than
     LZMA_IN_REQUIRED bytes remain. -/
